@@ -170,8 +170,8 @@ def check_case(ctx, case):
         ctx.count("rows_compared")
         big_t = r["t"]
         # wind-switch allowance (a switch takes effect up to one step late; first order in h but not monotone)
-        w_v = 2 * sum(k_max * dw * dt_max for ts, dw in switches if ts <= big_t)
-        w_y = 2 * sum(k_max * dw * dt_max * (big_t - ts) for ts, dw in switches if ts <= big_t)
+        w_v = 2 * sum(max(k_max * dw, da) * dt_max for ts, dw, da in switches if ts <= big_t)
+        w_y = 2 * sum(max(k_max * dw, da) * dt_max * (big_t - ts) for ts, dw, da in switches if ts <= big_t)
         floor = {"v": 10 * e_ref["v"] + ROUND["v"] + w_v, "y": 10 * e_ref["y"] + ROUND["y"] + w_y,
                  "z": 10 * e_ref["z"] + ROUND["z"] + w_y, "t": 10 * e_ref["t"] + ROUND["t"] + w_y / v_min}
         errs = [{q: abs(run[k][q] - r[q]) for q in COMPONENTS} for run in runs]
